@@ -184,6 +184,11 @@ def ops_table():
         # a weight function with a zero exactly AT a sample (the first knot): the refusal is a ValueError like every other refused weight list (D46)
         # a non-numeric entry among removable knots: the refusal must come before anything is removed (D52)
         ("knot_clean[1/2,3/2,(9,)]", lambda c: c.knot_clean([F(1, 2), F(3, 2), (F(9),)]), True),
+        # the RESULT of a non-mutating operation is an independent object: changing it does not change the operand
+        ("mutate(fraction()[0])", lambda c: (lambda r: (r.knot_insert([F(1, 2)]), setattr(r, "ctrlpoints", [2 * q for q in r.ctrlpoints])))(c.fraction()[0]), False),
+        ("mutate(-c)", lambda c: (lambda r: (r.degree_increase(1), setattr(r, "ctrlpoints", [2 * q for q in r.ctrlpoints])))(-c), False),
+        ("mutate(c+1)", lambda c: (lambda r: (r.knot_insert([F(5, 2)]), setattr(r, "ctrlpoints", [q + 1 for q in r.ctrlpoints])))(c + 1), False),
+        ("mutate(copy(c))", lambda c: (lambda r: (r.knot_insert([F(1, 2)]), setattr(r, "ctrlpoints", [q + 1 for q in r.ctrlpoints])))(copy(c)), False),
         ("weights=zero-at-umin", lambda c: setattr(c, "weights", [F(0)] + [F(1)] * (c.npts - 1)), True),
         ("apply(kv, first row zero)", lambda c: c.apply(list(c.knotvector), [[F(int(i == j and i > 0)) for j in range(c.npts)] for i in range(c.npts)]), True),
     ]
